@@ -88,6 +88,8 @@ def validate(doc, check_ext=None):
         f("V-OP", i, msg)
     for e in d.bad_edges:
         f("V-EDGE-NODE", None, f"edge {e} names a missing node")
+    if d.port_err or d.bad_edges:
+        return F   # unreadable operations / dangling edges: the remaining rules presuppose a readable document
     # ---- hierarchy
     if d.parent[0] != 0:
         f("V-ROOT", 0, "node 0 is not its own parent")
